@@ -91,6 +91,14 @@ class FieldArrayModel(FieldCompositeModel):
         
     def post_randomize(self, visited):
         FieldCompositeModel.post_randomize(self, visited)
+        if self.is_rand_sz and self.is_scalar:
+            # Elements added to make room for the largest possible size
+            # are not part of the list once its size has been selected
+            sz = int(self.size.get_val())
+            if 0 <= sz < len(self.field_l):
+                for f in self.field_l[sz:]:
+                    f.dispose()
+                del self.field_l[sz:]
         self.sum_expr = None
         self.sum_expr_btor = None
         self.product_expr = None
